@@ -9,6 +9,7 @@ import (
 	"encoding/json"
 	"fmt"
 	"math/rand"
+	"sync"
 	"testing"
 	"time"
 )
@@ -155,3 +156,69 @@ func TestVerifLink(t *testing.T) {
 }
 
 var _ = fmt.Sprintf
+
+// ---------------------------------------------------------------- C10 "ping" engine
+//
+// Many pings at once whose budget runs out at the sending node itself (budget 0): the "message expired" notice is
+// produced inside the send, so it reaches the pinging socket at the earliest possible moment. Every ping must report
+// the expiry, with this node as the reporter; a notice that arrives before the ping listens for it would be lost.
+
+type pingArgs struct {
+	Workers int `json:"workers"`
+	Each    int `json:"each"`
+}
+
+func pingApply(op string, raw json.RawMessage) interface{} {
+	var a pingArgs
+	if err := json.Unmarshal(raw, &a); err != nil {
+		panic(err)
+	}
+	if op != "burst" {
+		panic("verif: unknown op " + op)
+	}
+	s, cancel := verifQuietNode("me", 30)
+	defer cancel()
+	ch := make(chan []byte, 65536)
+	cctx, cf := context.WithCancel(s.context)
+	s.connLock.Lock()
+	s.connections["nb"] = &connInfo{ReadChan: make(chan []byte), WriteChan: ch, Context: cctx, CancelFunc: cf, Cost: 1,
+		lastReceivedData: time.Now(), lastReceivedLock: &sync.RWMutex{}, logger: s.Logger}
+	s.connLock.Unlock()
+	s.routingTableLock.Lock()
+	s.routingTable["far"] = "nb"
+	s.routingTableLock.Unlock()
+	var mu sync.Mutex
+	expired, other := 0, map[string]int{}
+	var wg sync.WaitGroup
+	for w := 0; w < a.Workers; w++ {
+		wg.Add(1)
+		go func() {
+			defer wg.Done()
+			for i := 0; i < a.Each; i++ {
+				ctx, c := context.WithTimeout(context.Background(), 2500*time.Millisecond)
+				_, from, err := s.Ping(ctx, "far", 0)
+				c()
+				mu.Lock()
+				if err != nil && err.Error() == ProblemExpiredInTransit && from == "me" {
+					expired++
+				} else {
+					other[fmt.Sprintf("%v from %q", err, from)]++
+				}
+				mu.Unlock()
+			}
+		}()
+	}
+	wg.Wait()
+	return map[string]interface{}{"pings": a.Workers * a.Each, "expired_reported_by_me": expired, "other": other}
+}
+
+func pingGen(v *verifRun) {
+	for i := 0; i < v.n; i++ {
+		v.do(pingApply, "burst", pingArgs{Workers: []int{16, 32, 8}[i%3], Each: 25})
+	}
+}
+
+func TestVerifPing(t *testing.T) {
+	v := verifOpen(t, "ping")
+	v.run(pingApply, pingGen)
+}
